@@ -151,20 +151,17 @@ Theorem C17_failed_copy_leaves_nothing :
 Proof. exact failed_copy_leaves_nothing. Qed.
 Print Assumptions C17_failed_copy_leaves_nothing.
 
-(* KNOWN FINDING C17-K1 (open on the current tree, see known/C17.json): the fault space above
-   contains crashes during an upload and failing renames, but NOT a crash in the middle of
-   insert_file's fall-back copy (only reachable when the rename of the packaged archive into
-   the cache is refused, e.g. a shard directory on a file system of its own): that copy writes
-   straight to the final path.  Full statement that would be wanted: [tinv] is preserved by
-   [tc_crash_insert_file_copy] like by every operation of [top].  It is refuted: *)
-Theorem C17_crash_in_fallback_copy_refuted :
-  exists (digest : bytes -> id) (s0 : tst) (b : bytes) (k : nat) (c : N),
-    tinv digest s0 /\
-    let s := tc_crash_insert_file_copy digest s0 b k c in
-    tc_contains s (digest b) = true /\
-    exists served, content_of s (digest b) = Some served /\ digest served <> digest b.
-Proof. exact crash_in_fallback_copy_refuted. Qed.
-Print Assumptions C17_crash_in_fallback_copy_refuted.
+(* The remaining crash point of the fault space (finding C17-K1, repaired by 7ead532): the
+   process is killed in the middle of insert_file's fall-back copy (any archive, any number of
+   bytes written) and the cache is started again.  The result is EXACTLY a plain restart, so a
+   history with such a crash is a history of [top] with TReopen in its place and all theorems
+   above apply to it.  (Before the repair the copy went straight to the final path and the
+   statement was refuted: the old witness is kept in corpus/C17/mount.sx.) *)
+Theorem C17_crash_in_fallback_copy_leaves_nothing :
+  forall (digest : bytes -> id) (s : tst) (b : bytes) (k : nat) (c : N),
+  tc_crash_insert_file_copy digest s b k c = tc_reopen s c.
+Proof. exact crash_in_fallback_copy_leaves_nothing. Qed.
+Print Assumptions C17_crash_in_fallback_copy_leaves_nothing.
 
 (* ---------- non-vacuity ---------- *)
 
